@@ -168,6 +168,24 @@ def impl_matrix(case):
     cls, fmt = case["cls"], case["fmt"]
     efmt = "clearn-arr" if (fmt == "clearn" and case.get("via_arr")) else fmt
     G, labels = build(case)
+    if C.warm_decide({k_: case[k_] for k_ in ("g", "cls", "fmt") if k_ in case}, 3) and len(labels) >= 2:
+        # the same graph object is exported, rebuilt in place with its nodes in another order, exported
+        # again, and rebuilt in place in the case's order: per-object state from the earlier exports
+        # (node -> row tables and the like) must not leak into the export that is judged
+        try:
+            g_ = case["g"]
+            lab_ = C.Labels(case.get("fam", "str"))
+            for order in (list(reversed(labels)), list(labels)):
+                G.remove_nodes_from(list(G.nodes))
+                for l_ in order:
+                    G.add_node(l_)
+                for k_ in LAYERS:
+                    for a_, b_ in g_.get(k_, []):
+                        G.add_edge(lab_(a_), lab_(b_), edge_type=LAYER_NAME[k_])
+                if order is not labels and order != labels:
+                    _guard(lambda: _export(efmt, G))
+        except Exception:
+            G, labels = build(case)
     cname = type(G).__name__
     res = {}
     before = C.snapshot(G)
